@@ -82,7 +82,13 @@ def native_eval(c, tier="quick"):
     if tier == "thorough" and c.get("thorough_task"):
         task = c["thorough_task"]
         r["cmd"] = "verif-replay eval " + task
-    p = subprocess.run([exe, "eval", task], capture_output=True, text=True, timeout=c.get("timeout", 600))
+    try:
+        p = subprocess.run([exe, "eval", task], capture_output=True, text=True, timeout=c.get("timeout", 600))
+    except subprocess.TimeoutExpired:
+        # a run that does not finish is undecided (exit 2), never an alarm and never a crash of the check
+        r["reason"] = "native-eval %s did not finish within %d s" % (task, c.get("timeout", 600))
+        r["wall_s"] = time.time() - t0
+        return r
     for ln in p.stdout.splitlines():
         if ln.startswith("RESULT "):
             j = json.loads(ln[7:])
